@@ -25,7 +25,8 @@ def run_cf(sig, o, **override):
     from bycycle.features import compute_features
     kw = S.call_kwargs(o)
     kw.update(override)
-    return compute_features(sig if o.get('layout', 'plain') != 'plain' else np.array(sig, dtype=float), o['fs'], o['f_range'], **kw)
+    fs, fr = S.call_fs(o)
+    return compute_features(sig if o.get('layout', 'plain') != 'plain' else np.array(sig, dtype=float), fs, fr, **kw)
 
 
 def side_of(centre):
